@@ -454,14 +454,12 @@ func parseStops(csv *csv.File, inheritWheelchairBoarding bool) []Stop {
 
 	var stops []Stop
 	stopIdToIndex := map[string]int{}
-	stopIdToParent := map[string]string{}
+	// parentStopIds[i] is the parent_station value of stops[i], or "" if there is none.
+	var parentStopIds []string
 	for csv.NextRow() {
 		stopID := idColumn.Read()
-		hasParentStop := false
-		if parentStopId := parentStationColumn.Read(); parentStopId != "" {
-			stopIdToParent[stopID] = parentStopId
-			hasParentStop = true
-		}
+		parentStopId := parentStationColumn.Read()
+		hasParentStop := parentStopId != ""
 		stop := Stop{
 			Id:                 stopID,
 			Code:               codeColumn.Read(),
@@ -482,13 +480,30 @@ func parseStops(csv *csv.File, inheritWheelchairBoarding bool) []Stop {
 		}
 		stopIdToIndex[stop.Id] = len(stops)
 		stops = append(stops, stop)
+		parentStopIds = append(parentStopIds, parentStopId)
 	}
-	for stopId, parentStopId := range stopIdToParent {
+	for i, parentStopId := range parentStopIds {
+		if parentStopId == "" {
+			continue
+		}
 		parentStopIndex, ok := stopIdToIndex[parentStopId]
 		if !ok {
 			continue
 		}
-		stops[stopIdToIndex[stopId]].Parent = &stops[parentStopIndex]
+		// Skip links that would make a stop its own ancestor (invalid data),
+		// so that the stop hierarchy is always a forest.
+		createsCycle := false
+		for ancestor := &stops[parentStopIndex]; ancestor != nil; ancestor = ancestor.Parent {
+			if ancestor == &stops[i] {
+				createsCycle = true
+				break
+			}
+		}
+		if createsCycle {
+			log.Printf("Skipping parent station %s of stop %s because it creates a cycle", parentStopId, stops[i].Id)
+			continue
+		}
+		stops[i].Parent = &stops[parentStopIndex]
 	}
 
 	// Inherit wheelchair boarding from parent stops if specified.
